@@ -112,15 +112,15 @@ func (t *T) Class() string {
 	return t.Kind
 }
 
-func sc(k string) *T           { return &T{Kind: k} }
-func ptr(t *T) *T              { return &T{Kind: "ptr", Elem: t} }
-func slice(t *T) *T            { return &T{Kind: "slice", Elem: t} }
-func array(n int, t *T) *T     { return &T{Kind: "array", Len: n, Elem: t} }
-func mp(t *T) *T               { return &T{Kind: "map", Elem: t} }
-func mpNamed(t *T) *T          { return &T{Kind: "mapnamed", Elem: t} }
-func model(n string) *T        { return &T{Kind: "model", Name: n} }
-func named(n string) *T        { return &T{Kind: "named", Name: n} }
-func anon(fs ...F) *T          { return &T{Kind: "struct", Fields: fs} }
+func sc(k string) *T                   { return &T{Kind: k} }
+func ptr(t *T) *T                      { return &T{Kind: "ptr", Elem: t} }
+func slice(t *T) *T                    { return &T{Kind: "slice", Elem: t} }
+func array(n int, t *T) *T             { return &T{Kind: "array", Len: n, Elem: t} }
+func mp(t *T) *T                       { return &T{Kind: "map", Elem: t} }
+func mpNamed(t *T) *T                  { return &T{Kind: "mapnamed", Elem: t} }
+func model(n string) *T                { return &T{Kind: "model", Name: n} }
+func named(n string) *T                { return &T{Kind: "named", Name: n} }
+func anon(fs ...F) *T                  { return &T{Kind: "struct", Fields: fs} }
 func fld(n string, t *T, tag string) F { return F{Name: n, Type: t, Tag: tag} }
 
 var scalarKinds = []string{"bool", "string", "int", "int8", "int16", "int32", "int64", "uint", "uint8", "uint16", "uint32", "uint64", "float32", "float64", "byte", "rune"}
@@ -233,6 +233,8 @@ func catalogue(r *rng.R, extra int) []feature {
 	out = append(out, feature{Type: model("Plain"), Embed: true, Class: "embedded-plain-struct:no-tag"})
 	out = append(out, feature{Type: model("Inner"), Embed: true, Tag: "emb", Class: "embedded-model:renamed"})
 	out = append(out, feature{Type: model("Inner"), Embed: true, Tag: "-", Class: "embedded-model:tag-dash"})
+	out = append(out, feature{Type: model("lower"), Embed: true, Class: "embedded-unexported-struct:no-tag"})
+	out = append(out, feature{Type: model("lower"), Embed: true, Tag: "-", Class: "embedded-unexported-struct:tag-dash"})
 	// ignored by annotation
 	out = append(out, feature{Type: sc("string"), Tag: "f", Doc: "swagger:ignore", Class: "string:swagger-ignore"})
 	// random compositions
@@ -322,9 +324,20 @@ type Plain struct {
 
 `
 
+// lower is a struct of an unexported type: embedded, its exported fields are promoted by encoding/json
+const lowerDecl = `// lower is a struct type whose name is not exported
+type lower struct {
+	L string ` + "`json:\"l\"`" + `
+	M uint16
+	hidden int
+}
+
+`
+
 func packageSource(feats []feature) string {
 	var b strings.Builder
 	b.WriteString(prelude)
+	b.WriteString(lowerDecl)
 	for i, f := range feats {
 		fmt.Fprintf(&b, "// M%d has a field of class %s\n//\n// swagger:model\ntype M%d struct {\n", i, f.Class, i)
 		b.WriteString(F{Name: "F", Type: f.Type, Tag: f.Tag, Doc: f.Doc, Embedded: f.Embed}.Go())
